@@ -247,6 +247,9 @@ func (w *World) checkCommitted(h int64, res *BlockResult, block *tmtypes.Block, 
 			if mb := wAt.GetBalance(common.Address(addr)); mb.Sign() != 0 {
 				w.violate("diff.balance", f.propsFor("balance", &addr), h, "account %s: missing in node, model balance %s", addr.Hex(), mb)
 			}
+			if mn := wAt.GetNonce(common.Address(addr)); mn != 0 {
+				w.violate("diff.nonce", f.propsFor("nonce", &addr), h, "account %s: missing in node (nonce 0), model nonce %d", addr.Hex(), mn)
+			}
 		}
 		// ---------------- stakes
 		delegs, xerr := sc.VerifDelegateesAt(h)
@@ -841,6 +844,9 @@ func (w *World) updateEvmBurn(h int64, snap *Snapshot) {
 	exp.Sub(exp, m.SlashBurn)
 	burn := new(big.Int).Sub(exp, total)
 	if burn.Cmp(m.EvmBurn) != 0 {
+		if len(w.Viol) > 0 {
+			return // the model is off the node's track already; its own totals mean nothing any more
+		}
 		if burn.Cmp(m.EvmBurn) < 0 || len(m.Destroyed) == 0 {
 			w.violate("harness.model-total", []string{"HARNESS"}, h, "the reference model's own total changed by %s without a self-destruct", new(big.Int).Sub(m.EvmBurn, burn))
 			return
